@@ -56,17 +56,39 @@ class Ren(ast.NodeTransformer):
         return node
 
 
+class SwapIf(ast.NodeTransformer):
+    """if c: A else: B  ->  if not c: B else: A   (plain else only)"""
+    def visit_If(self, node):
+        self.generic_visit(node)
+        if node.orelse and not (len(node.orelse) == 1 and isinstance(
+                node.orelse[0], ast.If)):
+            t = node.test
+            if isinstance(t, ast.UnaryOp) and isinstance(t.op, ast.Not):
+                nt = t.operand
+            else:
+                nt = ast.UnaryOp(op=ast.Not(), operand=t)
+            return ast.copy_location(ast.If(test=nt, body=node.orelse,
+                                            orelse=node.body), node)
+        return node
+
+
+MODE = 'rename'
+
+
 def renamed_source(m, fnodes):
     """source of module m with the given (top-most) function nodes replaced
     by local-renamed, unparsed versions"""
     lines = m.src.splitlines(keepends=True)
     # process bottom-up so line numbers stay valid
     for fn in sorted(fnodes, key=lambda f: -f.lineno):
-        names = locals_of(fn)
-        if not names:
-            continue
         import copy
-        new = Ren(names).visit(copy.deepcopy(fn))
+        if MODE == 'rename':
+            names = locals_of(fn)
+            if not names:
+                continue
+            new = Ren(names).visit(copy.deepcopy(fn))
+        else:
+            new = SwapIf().visit(copy.deepcopy(fn))
         ast.fix_missing_locations(new)
         text = ast.unparse(new)
         indent = ' ' * fn.col_offset
@@ -126,5 +148,8 @@ def main(props):
 
 
 if __name__ == '__main__':
+    if sys.argv[1:2] == ['--swap-if']:
+        MODE = 'swap'
+        del sys.argv[1]
     ps = sys.argv[1:] or ['C%02d' % i for i in range(1, 21) if i != 10]
     sys.exit(main(ps))
